@@ -168,7 +168,7 @@ Section Process.
   | SetArgv (a : list arg)
   | NewClient (caching : bool)
   | Cli (p : nat)
-  | HipGet (k p : nat).          (* request file p through a new HIP-RA client of program k *)
+  | HipGet (k p : nat).          (* request file p through the HIP-RA client of program k (the clients keep nothing) *)
 
   Definition step (fixed : bool) (st : state) (o : op) : state * outcome :=
     match o with
